@@ -8,10 +8,13 @@ HOUR = 3600 * 10**9
 def population(rng, n, with_foreign):
     """-> (plant lines relative to dir D (use {D}), description)"""
     L, desc = [], []
+    fine = rng.below(2) == 1
     for i in range(n):
         rank = rng.below(4)
         acc = rng.below(2)
-        m = G.T0 + rank * 10**9
+        # ranks a second apart, or (half of the populations) 100 ms apart inside ONE second:
+        # the eviction order is decided by the full timestamp
+        m = G.T0 + rank * (10**9 if fine is False else 10**8)
         a = m + 5 if acc else m - 120 * 10**9
         L.append("plant {D}/f%02d x 444 %d %d" % (i, m, a))
         desc.append((rank, acc))
